@@ -49,6 +49,11 @@ pub struct Shape {
     pub rot_mul: i32,
     #[serde(default)]
     pub rot_pow: i32,
+    /// bind the first rows of the used instance columns to advice cells by copy
+    /// constraints (advice column j, row r  ==  instance column j, row r)
+    /// instead of a gate
+    #[serde(default)]
+    pub inst_copy: bool,
     /// if non-zero, a first gate queries a[0] at this rotation before any other
     /// query is registered (so the first opening point is not x itself)
     #[serde(default)]
@@ -404,7 +409,8 @@ impl Circuit<F> for ShapeCircuit {
         let consts = if sh.perm > 0 {
             let cc = meta.fixed_column();
             meta.enable_constant(cc);
-            for col in a.iter().take(sh.perm.min(3)) {
+            let neq = if sh.inst_copy { sh.perm.min(3).max(sh.inst_used()) } else { sh.perm.min(3) };
+            for col in a.iter().take(neq) {
                 meta.enable_equality(*col);
             }
             for col in inst.iter().take(sh.inst_used()) {
@@ -615,10 +621,16 @@ impl Circuit<F> for ShapeCircuit {
                                 self.instance.iter().enumerate().take(sh.inst_used())
                             {
                                 for (row, v) in col.iter().enumerate() {
-                                    cfg.s_inst[j].enable(&mut r, row)?;
-                                    r.assign_advice(|| "i", cfg.a[j], row, || {
+                                    let by_copy = sh.inst_copy && sh.perm > 0;
+                                    if !by_copy {
+                                        cfg.s_inst[j].enable(&mut r, row)?;
+                                    }
+                                    let c = r.assign_advice(|| "i", cfg.a[j], row, || {
                                         self.val(oi, slot, F::from(*v))
                                     })?;
+                                    if by_copy {
+                                        inst_copies.push((c.cell(), cfg.inst[j], row));
+                                    }
                                     slot += 1;
                                 }
                             }
@@ -754,6 +766,7 @@ pub fn random_shape(seed: u64) -> Shape {
         rot_mul: rng.gen_range(0..=1),
         rot_pow: -rng.gen_range(0..=1),
         first_rot: [0, 0, 1, -1][rng.gen_range(0..4)],
+        inst_copy: rng.gen_range(0..3) == 0,
         lookups: rng.gen_range(0..=2),
         lookup_any: rng.gen_range(0..=1),
         trash: rng.gen_range(0..=2),
